@@ -2,6 +2,7 @@
 from ..core import *
 from .. import harness, gen, pyref, corr
 from ..curve import *
+from .. import surface
 
 VO = ['Props/C04.vo']
 FILES = ['Props/C04.v', 'Tie/Dep.v', 'Proofs/EdwardsLaw.v', 'Proofs/Projective.v', 'Proofs/Final.v', 'Tie/Curve.v', 'Proofs/Instance.v']
@@ -101,8 +102,11 @@ def search(ctx, scale, hints):
                               {'build': b, 'script': [l], 'output': [o], 'reference': list(e)}, {'class': 'wrong_sum', 'build': b, 'op': l.split()[0]}))
     return fails
 
+def always(ctx, scale):
+    return surface.c04_min_select(ctx, Pool('min', ctx.rng.fork('surf'), n_rand=3), scale)
+
 def run_check(ctx):
-    run_property(ctx, 'Props.C04', VO, FILES, build_scripts, search, 'C04 (group law of every operator form) is no longer shown to hold')
+    run_property(ctx, 'Props.C04', VO, FILES, build_scripts, search, 'C04 (group law of every operator form) is no longer shown to hold', always=always)
     if ctx.tier == 'thorough':
         for b in ('ark', 'min'):
             for desc, replay, key in programs(ctx, b, 200, 40)[:5]:
